@@ -119,6 +119,12 @@ func (s *metricSchemaStore) mutableSchema(id metric.ID, schema *metric.Schema) *
 	if stored, ok := s.mutable.Get(uint32(id)); ok {
 		return stored
 	}
+	if s.immutable != nil {
+		// another writer may have created the schema and PrepareFlush moved it meanwhile, writers go on with that one
+		if stored, ok := s.immutable.Get(uint32(id)); ok {
+			schema = stored
+		}
+	}
 	if schema == nil {
 		// create new schema
 		schema = &metric.Schema{}
